@@ -51,6 +51,13 @@ func propC08(w *World, r *Report) {
 		}
 		return false
 	})
+	RunStructCover(w, r, "opentype/gdef", "Table", []string{"opentype/gdef.Read"}, []string{"(*opentype/gdef.Table).Encode"})
+	RunStructCover(w, r, "opentype/gtab", "Info", []string{"opentype/gtab.Read"}, []string{"(*opentype/gtab.Info).Encode"})
+	RunStructCover(w, r, "opentype/gtab", "LookupMetaInfo", []string{"opentype/gtab.Read"}, []string{"(*opentype/gtab.Info).Encode"})
+	RunStructCover(w, r, "opentype/gtab", "Feature", []string{"opentype/gtab.Read"}, []string{"(*opentype/gtab.Info).Encode"})
+	RunStructCover(w, r, "opentype/gtab", "Features", []string{"opentype/gtab.Read"}, []string{"(*opentype/gtab.Info).Encode"})
+	RunStructCover(w, r, "opentype/gtab", "LookupTable", []string{"opentype/gtab.Read"}, []string{"(*opentype/gtab.Info).Encode"})
+	r.Floor("structcover", 12)
 	RunFormatField(w, r)
 	RunExtType(w, r)
 	checkTagPad(w, r)
